@@ -146,7 +146,15 @@ class Prop:
               "JSON value without the nutree header is rejected.  Tied to /repo by a correspondence check on the real JSON text and on documents "
               "produced by an independent Python encoder."),
         note=("Trusted: Coq kernel + vm_compute; hand-written model theories/Forest/Serialize.v (tied by the correspondence only); json module; "
-              "harness generators/observation."),
+              "harness generators/observation.  The header predicate (has_header_decl) and the maps in use (km_spec / vm_spec, incl. the "
+              "TypedTree kind list) are specified independently of the model and proved equal to what the reader tests / the writer resolves.  "
+              "EXERCISED, NOT PROVED: str/Path targets write the same document as a stream; save leaves the caller's dicts and node data "
+              "untouched.  OUTSIDE THE DOCUMENTED LAYOUT / THE QUANTIFIER: JSON objects with a duplicate member name (the model reads the "
+              "first binding, json.load keeps the last; json.dump never writes them); value_map lists are lists of STRINGS in the model "
+              "(Python also accepts other hashable values); opts_ok excludes a non-injective key_map, entry keys equal to a short name (D51) "
+              "and values not listed (save raises KeyError) -- outside opts_ok the correspondence still compares model and implementation "
+              "(CSaveRaw cases) but no theorem applies; files of other generator versions are covered by the guide's literal documents and "
+              "the FOREIGN cases only.  Finding D92 pending fix (plain Tree cannot read its own mapper-less str entries with a data_id)."),
         technique="Coq proof about an executable Gallina model + differential correspondence check (vm_compute) + Python oracle",
         design_ref="DESIGN.md section 6 (C12)",
     )
@@ -366,12 +374,14 @@ class Prop:
         ms = desc.get("mapper", "cb")
         finding = None
         needs_mapper = ms == "none" and any(isinstance(e[1], dict) for e in doc["nodes"]) and not desc.get("typed")
-        if t2 is None:
-            if not needs_mapper:
-                fail = f"reader: refuses a document of the documented layout (error class {obs[1]}): {text[:500]}"
+        if t2 is None and needs_mapper and obs[1] == 5:
+            # finding D92 (fixes/D92.diff): a plain Tree cannot read its own mapper-less {"str", "data_id"} entries
+            fail, finding = "D92: a plain Tree cannot load a document of the layout with a str entry that has a data_id, without a mapper", "D92"
+        elif t2 is None:
+            fail = f"reader: refuses a document of the documented layout (error class {obs[1]}): {text[:500]}"
         else:
             d40 = S.in_d40_region(tree._root)
-            fail = S.tree_iso(tree._root, t2._root, d40_expected=d40, check_data=S.ids_consistent(tree._root))
+            fail = S.tree_iso(tree._root, t2._root, d40_expected=d40)
             if fail and fail.startswith("D40"):
                 finding = "D40"
             if not fail and meta != doc["meta"]:
@@ -508,6 +518,9 @@ CORPUS = [
     dict(kind="load", typed=True, univ=["s:x", "s:y", "e:1"], nodes=[[0, "a", None, [[1, "a", None, [[0, "b", None, []]]]]], [2, "a", None, [[0, "a", None, []], [2, "b", None, []]]]], km="custom", vm="custom", mapper="cb"),
     # D90: TypedTree.save(value_map=<dict without "kind">) writes the kind list into the caller's dict
     dict(kind="save", typed=True, univ=["s:x", "s:y"], nodes=[[0, "a", None, [[1, "b", None, []]]]], km="true", vm="custom_nokind", mapper="cb", meta=None, calc=None),
+    # outside the domain (clones_consistent): one explicit data_id on two different data objects -- 'b' must load as 'a', exactly
+    dict(kind="load", typed=False, univ=["s:a", "s:x", "s:b"], nodes=[[0, None, 1, []], [1, None, None, [[2, None, 1, []]]]], km="true", vm="true", mapper="cb"),
+    dict(kind="save", typed=False, univ=["s:a", "s:x", "s:b"], nodes=[[0, None, 1, []], [1, None, None, [[2, None, 1, []]]]], km="true", vm="true", mapper="cb"),
     # D40 (known): identity-hashed data, clone of another kind
     dict(kind="load", typed=True, univ=["p:1", "s:y"], nodes=[[0, "a", None, []], [1, "a", None, [[0, "b", None, []]]]], km="true", vm="true", mapper="cb"),
 ]
